@@ -104,6 +104,18 @@ def _pair_specs(rng, D, N, order):
                   gen.GeneralLinearStepper(D, L, N, dt, linear_coefficients=(0.0, 0.0, 0.0, a3))))
     pairs.append(("HyperDiffusion~GeneralLinear", 1, st.HyperDiffusion(D, L, N, dt, hyper_diffusivity=mu),
                   gen.GeneralLinearStepper(D, L, N, dt, linear_coefficients=(0.0, 0.0, 0.0, 0.0, -mu))))
+    if D == 1:
+        # in one dimension the spatially-mixing forms coincide with the element-wise ones: the mixing flags must not
+        # change the specific ~ generic correspondence there
+        pairs.append(("Dispersion(advect_on_diffusion)~GeneralLinear[1d]", 1, st.Dispersion(D, L, N, dt, dispersivity=a3, advect_on_diffusion=True),
+                      gen.GeneralLinearStepper(D, L, N, dt, linear_coefficients=(0.0, 0.0, 0.0, a3))))
+        pairs.append(("HyperDiffusion(diffuse_on_diffuse)~GeneralLinear[1d]", 1,
+                      st.HyperDiffusion(D, L, N, dt, hyper_diffusivity=mu, diffuse_on_diffuse=True),
+                      gen.GeneralLinearStepper(D, L, N, dt, linear_coefficients=(0.0, 0.0, 0.0, 0.0, -mu))))
+        pairs.append(("KdV(mixing flags)~GeneralConvection[1d]", 1,
+                      st.KortewegDeVries(D, L, N, dt, convection_scale=b, diffusivity=nu, dispersivity=a3, hyper_diffusivity=mu,
+                                         advect_over_diffuse=True, diffuse_over_diffuse=True, order=order),
+                      gen.GeneralConvectionStepper(D, L, N, dt, linear_coefficients=(0.0, 0.0, nu, -a3, -mu), convection_scale=b, order=order)))
     for single in (True, False):
         C = 1 if single else D
         pairs.append((f"Burgers~GeneralConvection(single={single})", C,
